@@ -157,6 +157,10 @@ func buildPaths(h *expr.HTTPExpr, bodies map[string]map[string]*EndpointBodies, 
 						path.Head = operation
 					case "PATCH":
 						path.Patch = operation
+					case "TRACE":
+						path.Trace = operation
+					case "CONNECT":
+						path.Connect = operation
 					}
 					path.Extensions = openapi.ExtensionsFromExpr(r.Endpoint.Meta)
 					if len(exts) > 0 {
